@@ -354,6 +354,44 @@ func c10R4(c *Ctx) {
 		}
 		c.check(good, "record/"+c.fnName(cs.Caller), c.ipos(cs.Instr), "a path is recorded only right after it was successfully created/opened by this transfer", "a path is recorded as created without a successful create of that same path")
 	}
+	// and the converse: whatever receiving creates is recorded — from the success edge of every create-file / create-directory
+	// site reachable while receiving, no exit is reachable without the recorder being called for that same path
+	nCreate := 0
+	for _, s := range c.fsSites(c.recvRoots()) {
+		if s.Kind != "open" && s.Kind != "mkdir" {
+			continue
+		}
+		call, isCall := s.Call.(*ssa.Call)
+		if !isCall {
+			continue
+		}
+		nCreate++
+		p := call.Call.Args[0]
+		ev := errorValueOf(call)
+		hit, path := reachFromE(call.Block(), instrIndex(call)+1, isReturn, func(in ssa.Instruction) bool {
+			ci, ok := in.(ssa.CallInstruction)
+			return ok && ci.Common().StaticCallee() == rec && sameValue(ci.Common().Args[1], p)
+		}, func(from, to *ssa.BasicBlock) bool {
+			_, nonNil := factNil(edgeFactsTo(from, to), ev)
+			return nonNil
+		})
+		c.check(hit == nil, "created=>recorded/"+c.fnName(s.Fn)+"/"+s.ID, c.ipos(call), "what this site creates is always recorded for stop-and-delete", "a file or directory created while receiving is not recorded on some path: stop-and-delete leaves it behind", c.pathStr(path)...)
+	}
+	if nCreate < 2 {
+		c.undecided("created=>recorded/sites", "fewer create sites than expected")
+	}
+	// the recorder always appends
+	{
+		hit, path := reachFrom(rec.Blocks[0], 0, isReturn, func(in ssa.Instruction) bool {
+			st, ok := in.(*ssa.Store)
+			if !ok {
+				return false
+			}
+			n, _ := fieldAddrName(st.Addr)
+			return n == "trzszTransfer.createdFiles"
+		})
+		c.check(hit == nil, "addCreatedFiles/always-appends", c.pos(rec.Pos()), "the recorder appends on every path", "the recorder can return without recording", c.pathStr(path)...)
+	}
 	// who deletes
 	del := c.fn("trzszTransfer.deleteCreatedFiles")
 	for _, cs := range c.callersOf(del) {
